@@ -27,12 +27,20 @@ NEEDS = {
  "C02b": "cellblock compression on; a second compressed response (or request) is processed between the delivery of a result and the caller reading its cells",
  "C03b": "a write error on the connection while a second sender is between the done check and the write lock",
  "C09b": "two callers racing through a cache miss for the same new region, the second reading the cache between the first's put and MarkUnavailable",
+ "C05b": "a non-TCP connection and two goroutines sending on one region client, one request with cellblocks and one without, the plain Write falling between the gather's Writes",
+ "C06b": "a reversed scan over >=2 regions: a stop row just below a crossed boundary, or a second reversed scan through the same client",
+ "C11b": "a batch with a call cancelled before the flush, and a response entry with a result (not an exception) for that dropped call in a frame that carries cellblocks",
+ "C12b": "a sub-call whose response carries cells and whose own context expires after the multi was sent but before the response is decoded",
+ "C13b": "a call of a batch with its own context, ended by cancel (not deadline) while its region is being looked up or re-established",
+ "C14b": "the response that opens a region scanner also says more_results=false with more_results_in_region=true",
+ "C17b": "a lookup that fails by timing out (ZooKeeper or meta accept the request but never answer)",
+ "C18b": "outstanding count 1 -> 0 -> 1 with the new send's inFlightUp between the reader's unlock and its deadline clear; then the server goes silent",
  "C18": "an unbatched request whose context is cancelled before the (late) response arrives, then an idle period longer than the read timeout",
 }
 CHECKS = {  # seed -> checks to try (own property first)
  "C01": ["C01"], "C02": ["C02"], "C03": ["C03"], "C04": ["C04", "C09"], "C05": ["C05", "C12"], "C06": ["C06"], "C07": ["C07"],
  "C08": ["C08"], "C09": ["C09", "C04"], "C10": ["C10", "C05"], "C11": ["C11", "C15"], "C12": ["C12", "C07"], "C13": ["C13"],
- "C14": ["C14"], "C15": ["C15", "C05"], "C19": ["C19", "C20"], "C20": ["C20", "C19"], "C02b": ["C02"], "C03b": ["C03"], "C09b": ["C09"], "C16": ["C16", "C01"], "C17": ["C17"], "C18": ["C18"],
+ "C14": ["C14"], "C15": ["C15", "C05"], "C19": ["C19", "C20"], "C20": ["C20", "C19"], "C02b": ["C02"], "C03b": ["C03"], "C09b": ["C09"], "C05b": ["C05"], "C06b": ["C06"], "C11b": ["C11"], "C12b": ["C12", "C02"], "C13b": ["C13"], "C14b": ["C14"], "C17b": ["C17", "C13"], "C18b": ["C18"], "C16": ["C16", "C01"], "C17": ["C17"], "C18": ["C18"],
 }
 names = sys.argv[1:] or sorted(os.listdir('/verif/seeded'))
 rows = []
